@@ -409,21 +409,91 @@ Proof.
   exists [DdRevalidatePagemap]. vm_compute. intros (x & E & Hl). inversion E; subst. discriminate.
 Qed.
 
-(** ** set_attr: exactly one owner for the new value, whatever the hooks do *)
+(** ** set_attr: exactly one owner for the new value, whatever the hooks do,
+    whether or not the new and the old value are dynamically allocated *)
 Theorem set_attr_owns_value old newv pre_ok post_ok s L K P F :
-  St s (newv :: optl old ++ L) K P F ->
-  wp (set_attr old newv pre_ok post_ok)
+  St s (optl newv ++ optl old ++ L) K P F ->
+  wp (set_attr false old newv pre_ok post_ok)
      (fun r s' => St s' (optl (snd r) ++ L) K P F /\
-                  (pre_ok = true -> snd r = Some newv) /\ (pre_ok = false -> snd r = old) /\
+                  (pre_ok = true -> snd r = newv) /\ (pre_ok = false -> snd r = old) /\
                   (fst r = true -> pre_ok = true /\ post_ok = true)) s.
 Proof.
   intros HS. unfold set_attr. destruct pre_ok.
-  - apply wp_bind. destruct old as [o|]; simpl in *.
+  - apply wp_bind. destruct old as [o|]; destruct newv as [n|]; simpl in *.
+    + wp_go. cbn [fst snd optl app]. split; [assumption|]. split; [reflexivity|]. split; [discriminate|].
+      intros ->. auto.
     + wp_go. cbn [fst snd optl app]. split; [assumption|]. split; [reflexivity|]. split; [discriminate|].
       intros ->. auto.
     + apply wp_ret. apply wp_ret. cbn [fst snd optl app]. split; [assumption|]. split; [reflexivity|].
       split; [discriminate|]. intros ->. auto.
-  - wp_go. cbn [fst snd]. split; [assumption|]. split; [discriminate|]. split; [reflexivity|]. discriminate.
+    + apply wp_ret. apply wp_ret. cbn [fst snd optl app]. split; [assumption|]. split; [reflexivity|].
+      split; [discriminate|]. intros ->. auto.
+  - apply wp_bind. destruct newv as [n|]; simpl in *.
+    + wp_go. cbn [fst snd]. split; [assumption|]. split; [discriminate|]. split; [reflexivity|]. discriminate.
+    + apply wp_ret. apply wp_ret. cbn [fst snd]. split; [assumption|]. split; [discriminate|].
+      split; [reflexivity|]. discriminate.
+Qed.
+
+(* looking at the old value's flags loses a rejected dynamic value when the
+   attribute had no dynamic value before *)
+Lemma set_attr_by_old_flags_witness :
+  let '(r, tr, _) := run (n <- alloc S_value ;;
+                          match n with
+                          | Some v => x <- set_attr true None (Some v) false true ;; free_opt (snd x) ;;; ret (fst x)
+                          | None => ret false
+                          end) [] in
+  r = false /\ ~ balanced tr.
+Proof.
+  vm_compute. split; [reflexivity|]. intros (x & E & Hl). inversion E; subst. discriminate.
+Qed.
+
+(** ** diskdump_read_page: every exit gives the chunk back *)
+Lemma pread_pages_ok pol pages : forall s L K P F (Q : bool -> st -> Prop),
+  St s L K P F -> (forall b s', St s' L K P F -> Q b s') -> wp (pread_pages pol pages) Q s.
+Proof.
+  induction pages as [| env rest IH]; intros s L K P F Q HS HQ; cbn [pread_pages].
+  - apply wp_ret. auto.
+  - apply wp_bind. eapply fcache_get_ok; [eassumption | |].
+    + intros e s' HS'. cbn beta iota. clear HS. rename HS' into HS. wp_go. eapply IH; eauto.
+    + intros g s' Hg HS'. destruct g; try discriminate; cbn beta iota; apply wp_ret; auto.
+Qed.
+
+Lemma read_page_tail_ok g m compiled r s L K P F :
+  St s (gblocks g ++ L) K (gpins g ++ P) F ->
+  wp (read_page_tail false g m compiled r) (fun _ s' => St s' L K P F) s.
+Proof.
+  intros HS. unfold read_page_tail.
+  assert (Hput : forall b : bool, wp (fcache_put_chunk g ;;; ret b) (fun (_ : bool) s' => St s' L K P F) s).
+  { intros b. apply wp_bind. eapply wp_conseq; [exact (put_chunk_releases g _ _ _ _ _ HS)|].
+    intros [] s' HS'. apply wp_ret. exact HS'. }
+  destruct m; [apply Hput| | |]; destruct compiled; try apply Hput; destruct r; apply Hput.
+Qed.
+
+Theorem diskdump_page_exits_balanced pol big pages compressed m compiled r s L K P F :
+  (big = false -> length pages <= 2) ->
+  St s L K P F ->
+  wp (diskdump_read_page false pol big pages compressed m compiled r)
+     (fun _ s' => exists F', St s' L K P F') s.
+Proof.
+  intros Hb HS. unfold diskdump_read_page. destruct compressed.
+  - apply wp_bind. eapply wp_conseq; [exact (chunk_get_put_balanced pol big pages _ _ _ _ _ Hb HS)|].
+    intros [g| |] s' HQ; simpl in HQ.
+    + destruct HQ as [F' HS']. eapply wp_conseq; [exact (read_page_tail_ok g m compiled r _ _ _ _ _ HS')|].
+      intros b s2 HS2. exists F'. exact HS2.
+    + apply wp_ret. exact HQ.
+    + contradiction.
+  - eapply pread_pages_ok; [eassumption|]. eauto.
+Qed.
+
+(* the variant with the early return keeps the chunk of a well-formed zstd
+   stream of the wrong size *)
+Lemma diskdump_page_early_return_witness :
+  exists pages,
+    let '(r, s) := diskdump_read_page true PNever false pages true MZstd true DecWrongSize (init [] 0 []) in
+    r = false /\ exists x, summary s = Some x /\ pins x <> [].
+Proof.
+  exists [({| g_eof := false; g_mlook := Busy; g_mmap_ok := true; g_rlook := Entry 3 false; g_pread_ok := true |}, true)].
+  vm_compute. split; [reflexivity|]. eexists. split; [reflexivity|discriminate].
 Qed.
 
 (** ** statements on complete runs *)
@@ -475,4 +545,15 @@ Proof.
   unfold run. pose proof (format_cleanup_frees_all ops _ _ _ _ _ (St_init sch)) as W. unfold wp in W.
   destruct (dd_session true ops (init sch 0 [])) as [u s']. cbn [fst snd] in *.
   destruct W as [F' W]. eapply St_clean; eauto.
+Qed.
+
+Lemma diskdump_page_run pol big pages compressed m compiled r sch :
+  (big = false -> length pages <= 2) ->
+  let '(_, tr, _) := run (diskdump_read_page false pol big pages compressed m compiled r) sch in clean tr.
+Proof.
+  intros Hb. unfold run.
+  pose proof (diskdump_page_exits_balanced pol big pages compressed m compiled r _ _ _ _ _ Hb (St_init sch)) as W.
+  unfold wp in W.
+  destruct (diskdump_read_page false pol big pages compressed m compiled r (init sch 0 [])) as [u s'].
+  cbn [fst snd] in *. destruct W as [F' W]. eapply St_clean; eauto.
 Qed.
